@@ -171,6 +171,12 @@ def extendFunctionEnv (f : FuncVal) (args : List Obj) : M (Except Obj Nat) := do
   let parent := if same then cur else f.env
   let pf ← getFrame parent
   let nenv ← newFrame { outer := some parent, cacheKey := f.key, depth := pf.depth + 1, function := some f }
+  -- the variadic expansion looks through a reference to an outer array
+  let args ← if f.variadic then
+      match args.getLast? with
+      | some last => do pure (args.dropLast ++ [← valueOf last])
+      | none => pure args
+    else pure args
   let (params, args, extra) := splitArgs f args
   if args.length != params.length then return .error (err "wrong number of arguments")
   match ← bindParams nenv (params.zip args) with
@@ -375,7 +381,11 @@ def evalForLoop : Nat → Node → Node → Obj → M Obj
     | .bool true =>
       let r ← evalI fuel body
       match r with
-      | .ret .. | .error _ => pure r
+      | .error _ => pure r
+      | .ret _ kind =>
+        if kind == "BREAK" then pure lastEval
+        else if kind == "CONTINUE" then evalForLoop fuel c body lastEval
+        else pure r
       | _ => evalForLoop fuel c body r
     | .bool false | .null => pure lastEval
     | .error _ => pure condition
@@ -393,16 +403,16 @@ def evalForSpecialForms : Nat → Node → Node → M (Option Obj)
       | .ident name =>
         match r with
         | .inf "COLON" rl rr => do
-          let start ← evalI fuel rl
+          let start ← valueOf (← evalI fuel rl)
           match int64Value start with
           | none => pure (some (err "for var = n:m n not an integer"))
           | some s =>
-            let endV ← evalI fuel rr
+            let endV ← valueOf (← evalI fuel rr)
             match int64Value endV with
             | none => pure (some (err "for var = n:m m not an integer"))
             | some e => pure (some (← evalForInteger fuel body s.toInt e.toInt name .null))
         | _ => do
-          let v ← evalI fuel r
+          let v ← valueOf (← evalI fuel r)
           match v with
           | .int n => pure (some (← evalForInteger fuel body 0 n.toInt name .null))
           | .error _ => pure (some v)
